@@ -39,6 +39,7 @@ NL = len(LAYERS)
 TOP = NL - 1
 KIND_DEFAULT, KIND_PING = 0, 2
 TIMEOUT = 0.6
+GRACE = 6.0      # extra wait before an operation is judged blocked (only ever spent on a wedged stack)
 
 
 # ---------------------------------------------------------------- model table
@@ -188,7 +189,7 @@ class Worker(object):
     def run(self, fn, timeout):
         box, ev = {}, threading.Event()
         self.q.put((fn, box, ev))
-        if not ev.wait(timeout):
+        if not ev.wait(timeout) and not ev.wait(GRACE):      # a loaded machine is not a blocked stack
             self.stuck = True
             return ("blocked", None)
         if "exc" in box:
@@ -527,7 +528,7 @@ def run_concurrent(ctx, model, scn, seed):
                              "held": sorted(k for k, v in locks.items() if v)})
         ins.begin_op()
         j0 = Job(lambda: rig.feed(a_bytes))
-        if not entered.wait(3.0):
+        if not entered.wait(20.0):
             probs.append("frame A never reached the application callback")
             go.set()
             return probs, diffs, observed
@@ -536,10 +537,10 @@ def run_concurrent(ctx, model, scn, seed):
         st1, r1 = j1.wait(0.4)
         snap("B handed in while A is being delivered", st1, r1)
         go.set()
-        st0, r0 = j0.wait(3.0)
+        st0, r0 = j0.wait(20.0)
         snap("A's callback %s" % ("raises" if scn["first_fails"] else "returns"), st0, r0)
         if st1 != "done":
-            st1, r1 = j1.wait(3.0)
+            st1, r1 = j1.wait(8.0)
         snap("B's read completes", st1, r1)
         log = [list(x) for x in ins.log]
         # ---- oracle on the implementation
@@ -584,8 +585,10 @@ def run_concurrent(ctx, model, scn, seed):
                 i_out = ["paused", observed[1]["outcome"], observed[2]["outcome"], observed[3]["outcome"]]
                 if m_out != i_out:
                     diffs.append("per phase: model %s, implementation %s" % (m_out, i_out))
-                m_locks = [sorted(k for k, v in lockrow_to_table(ph[1]).items() if v) for ph in r]
-                i_locks = [o["held"] for o in observed]
+                # phase 2 (A's delivery ends) is not a quiescent point: thread 1 is released the moment A lets go of the
+                # flush lock and runs on while the snapshot is taken - locks are compared where both threads are at rest
+                m_locks = [sorted(k for k, v in lockrow_to_table(ph[1]).items() if v) for i, ph in enumerate(r) if i != 2]
+                i_locks = [o["held"] for i, o in enumerate(observed) if i != 2]
                 if m_locks != i_locks:
                     diffs.append("locks held per phase: model %s, implementation %s" % (m_locks, i_locks))
                 m_log = sorted(json.dumps(list(e)) for ph in r for e in (node_to_entry(x) for x in ph[2]) if e is not None)
